@@ -124,6 +124,17 @@ def scenarios(w: K.World, tier: str, R):
                         flags |= mod.SPLIT
                     isb = R.random() < 0.2 and api.module != 'pathlib'
                     yield dict(api=api, pats=pats, excl=excl, flags=flags, limit=L, isb=isb, known=None, note=f'T={T}')
+            # plain pattern LISTS, no flag that could expand anything (added after seeded change C11g: compile_pattern switched the limit
+            # off when neither BRACE nor SPLIT was set): the list itself — with exclude= / inline exclusions — exceeds the limit or not
+            if api.name != 'wcmatch.WcMatch' and (L <= 33 or tier != 'quick' or api.name in ('fnmatch.fnmatch', 'glob.globmatch')):
+                for T in (L, L + 1):
+                    yield dict(api=api, pats=[f'p{i}*' for i in range(T)], excl=None, flags=0, limit=L, isb=False, known=None, note=f'plain-list T={T}')
+                    if T >= 2:
+                        m = max(1, T // 3)
+                        yield dict(api=api, pats=[f'p{i}*' for i in range(T - m)], excl=[f'x{i}' for i in range(m)], flags=0, limit=L,
+                                   isb=R.random() < 0.3 and api.module != 'pathlib', known=None, note=f'plain-list+excl T={T}')
+                        yield dict(api=api, pats=[f'p{i}*' for i in range(T - m)] + [f'!x{i}' for i in range(m)], excl=None, flags=mod.NEGATE,
+                                   limit=L, isb=False, known=None, note=f'plain-list+inline T={T}')
             # duplicates: total L+1, distinct 1
             if api.name != 'wcmatch.WcMatch' and L <= 33:
                 yield dict(api=api, pats=['dup'] * (L + 1), excl=None, flags=BR, limit=L, isb=False, known=None, note='dups')
@@ -354,6 +365,40 @@ def run(ck: Check) -> int:
                                    'pulls': real['pulls']})
         sr.distinct = len(records)
     ck.search('limit-property', s_prop)
+
+    def s_empty(sr):
+        # "for every entry point, a call whose patterns exceed L raises" also when there is nothing to match against (added after seeded
+        # change C11h: filter / globfilter returned [] for an empty name collection before looking at the patterns)
+        F, G = w.F, w.G
+        sr.note = ('calls with an EMPTY name collection ([], (), an empty iterator) or an empty name, patterns exceeding the limit (brace set, '
+                   'plain list, exclude=) x limits {1, 2, 10, default} x filter / globfilter / fnmatch / globmatch / compile().filter: PatternLimitException')
+        for L in (1, 2, 10, None):
+            n = (1000 if L is None else L) + 1
+            kw = {} if L is None else {'limit': L}
+            for pats, fl, ex in ((['{1..%d}' % n], 'BRACE', None), ([f'p{i}' for i in range(n)], '', None),
+                                 (['a'], 'BRACE', ['{1..%d}' % n]), ([f'p{i}' for i in range(n - 1)], '', ['x'])):
+                if L is None and not fl and len(pats) > 100:
+                    pass
+                for label, call in (
+                        ('fnmatch.filter([])', lambda: F.filter([], pats, flags=getattr(F, fl, 0) if fl else 0, exclude=ex, **kw)),
+                        ('fnmatch.filter(())', lambda: F.filter((), pats, flags=getattr(F, fl, 0) if fl else 0, exclude=ex, **kw)),
+                        ('fnmatch.filter(iter(()))', lambda: F.filter(iter(()), pats, flags=getattr(F, fl, 0) if fl else 0, exclude=ex, **kw)),
+                        ("fnmatch.fnmatch('')", lambda: F.fnmatch('', pats, flags=getattr(F, fl, 0) if fl else 0, exclude=ex, **kw)),
+                        ('glob.globfilter([])', lambda: G.globfilter([], pats, flags=getattr(G, fl, 0) if fl else 0, exclude=ex, **kw)),
+                        ('glob.globfilter(())', lambda: G.globfilter((), pats, flags=getattr(G, fl, 0) if fl else 0, exclude=ex, **kw)),
+                        ("glob.globmatch('')", lambda: G.globmatch('', pats, flags=getattr(G, fl, 0) if fl else 0, exclude=ex, **kw)),
+                        ('glob.globfilter([], REALPATH)', lambda: G.globfilter([], pats, flags=(getattr(G, fl, 0) if fl else 0) | G.REALPATH, exclude=ex, **kw))):
+                    sr.evaluations += 1
+                    try:
+                        out = call()
+                        ck.report(Failing(f'{label}: {n} patterns > limit {L if L is not None else "default 1000"}, but no PatternLimitException',
+                                          {'api': label, 'patterns': [p[:40] for p in pats][:4], 'n_patterns': len(pats), 'exclude': ex and [e[:40] for e in ex],
+                                           'flags': fl, 'limit': L}, 'PatternLimitException', repr(out)[:80]))
+                        sr.histogram['FAILS'] = sr.histogram.get('FAILS', 0) + 1
+                    except w.W.PatternLimitException:
+                        sr.histogram['raises'] = sr.histogram.get('raises', 0) + 1
+        sr.distinct = sr.evaluations
+    ck.search('limit-empty-inputs', s_empty)
 
     # repaired defects: their old witnesses must NOT reproduce (a reproduction is an unattributed violation)
     def s_fixed(sr):
